@@ -257,7 +257,28 @@ fn generate_long_idle(seed: u64, index: u64) -> History {
     History { limit, duration_ns: d, n_keys: 2, tempo: "long-idle".into(), keying: "long-idle".into(), attempts, dup_every: 2, dup_offset: 0 }
 }
 
+/// A limit sized for a balancer or a NAT (above 2^16, above 2^17) and one key that really makes that
+/// many attempts within one window, a nanosecond apart: exactly `limit` of them are admitted.
+fn generate_big_limit(seed: u64, index: u64) -> History {
+    let mut rng = Rng::stream(seed, index ^ 0xb16_0000);
+    let limit = *rng.pick(&[65_536u64, 70_000, 131_073]);
+    let d = *rng.pick(&[60_000_000_000u64, 3_600_000_000_000]);
+    let mut attempts: Vec<(u64, u32)> = Vec::with_capacity(limit as usize + 400);
+    for i in 0..limit + 300 {
+        attempts.push((if i == 0 { 0 } else { 1 }, 0));
+    }
+    // another key meanwhile, and the first one again a little later in the same window
+    attempts.push((d / 9, 1));
+    for _ in 0..50 {
+        attempts.push((1_000, 0));
+    }
+    History { limit, duration_ns: d, n_keys: 2, tempo: "big-limit".into(), keying: "big-limit".into(), attempts, dup_every: 1 << 40, dup_offset: 0 }
+}
+
 fn generate(seed: u64, index: u64) -> History {
+    if index % 1000 == 333 {
+        return generate_big_limit(seed, index);
+    }
     if index % 1000 == 777 {
         return generate_crowd(seed, index);
     }
